@@ -2,6 +2,11 @@
 //! would have written must be rejected (or loaded) — never abort the calling thread.  Through the public API a stored
 //! junk block is injected into a MemoryAdapter under a consistent name `<index>-<sha256(text)>.delta` and the replica is
 //! opened / refreshed; additionally `load_raw_delta` is called directly.  Contract checked: no panic (opening or refreshing reports an error or ignores the item).
+//! bitflip:<block>:<byte>.<bit>  three commits, the second with commit information {"ratio":2.5e-7,"sep":"a\u001fb","who":"é",
+//! "big":1e300} (JSON tokens with more than one spelling); ONE bit of the stored second (resp. third) block file is flipped
+//! under its original name: a fresh Melda::new is Err or shows exactly the state WITHOUT that block and its descendants —
+//! never the state with it.  All bits when the block is <= 1500 bytes or in the thorough tier, else the bits of the token
+//! bytes and every 7th other bit.
 use crate::Report;
 use melda::adapter::Adapter;
 use melda::melda::{DeltaId, Melda};
@@ -87,10 +92,141 @@ fn check(name: &str, text: &str) -> Result<(), String> {
     }
 }
 
-pub fn run(_thorough: bool, _seed: u64) -> Report {
+// ------------------------------------------------------------------------------------------ bit flips in a stored block
+
+struct Flip {
+    items: Vec<(String, Vec<u8>)>,
+    /// (label, index into items) of the blocks that get damaged
+    blocks: Vec<(String, usize)>,
+    /// per damaged block: the state a replica shows when that block (and its descendants) is absent
+    without: Vec<Value>,
+}
+
+fn view(m: &Melda) -> Value {
+    let objs = m.get_all_objects();
+    let winners: Vec<(String, String)> = objs.iter().map(|o| (o.clone(), m.get_winner(o).unwrap_or_else(|e| format!("ERR {}", e)))).collect();
+    let read = match m.read(None) {
+        Ok(d) => Value::Object(d),
+        Err(e) => json!({"err": e.to_string()}),
+    };
+    json!({"objects": objs, "winners": winners, "anchors": m.get_anchors().iter().map(|d| d.to_string()).collect::<Vec<String>>(), "read": read})
+}
+
+fn on_items(items: &[(String, Vec<u8>)], skip: Option<usize>, replace: Option<(usize, &[u8])>) -> Result<Melda, String> {
+    let adapter: Box<dyn Adapter> = Box::new(MemoryAdapter::new());
+    for (i, (k, b)) in items.iter().enumerate() {
+        if skip == Some(i) {
+            continue;
+        }
+        let bytes: &[u8] = match replace {
+            Some((j, d)) if j == i => d,
+            _ => b,
+        };
+        adapter.write_object(k, bytes).map_err(|e| e.to_string())?;
+    }
+    Melda::new(Arc::new(RwLock::new(adapter))).map_err(|e| e.to_string())
+}
+
+/// three commits; the second one carries commit information whose JSON text has tokens with more than one spelling
+/// (a float with an exponent, a string with a \u escape)
+fn flip_history() -> Result<Flip, String> {
+    let adapter: Box<dyn Adapter> = Box::new(MemoryAdapter::new());
+    let adapter = Arc::new(RwLock::new(adapter));
+    let m = Melda::new(adapter.clone()).map_err(|e| e.to_string())?;
+    let o = |v: Value| v.as_object().unwrap().clone();
+    let mut ids = vec![];
+    for step in 1..=3 {
+        m.update(o(json!({"title": format!("t{}", step), "n": step, "items\u{266D}": (1..=step).map(|i| json!({"_id": format!("i{}", i), "v": i})).collect::<Vec<Value>>()}))).map_err(|e| e.to_string())?;
+        let info = if step == 2 { Some(o(json!({"ratio": 2.5e-7, "sep": "a\u{1f}b", "who": "é", "big": 1e300}))) } else { None };
+        let heads = m.commit(info).map_err(|e| e.to_string())?.ok_or("no commit")?;
+        ids.push(heads.iter().next().cloned().ok_or("no head")?);
+    }
+    let a = adapter.read().unwrap();
+    let mut items = vec![];
+    for k in a.list_objects("").map_err(|e| e.to_string())? {
+        items.push((k.clone(), a.read_object(&k, 0, 0).map_err(|e| e.to_string())?));
+    }
+    let mut blocks = vec![];
+    for (n, id) in ids.iter().enumerate().skip(1) {
+        let idx = items.iter().position(|(k, _)| *k == id.key()).ok_or("block file not found")?;
+        blocks.push((format!("d{}", n + 1), idx));
+    }
+    let text = String::from_utf8_lossy(&items[blocks[0].1].1).to_string();
+    if !text.contains("2.5e-7") || !text.contains("\\u001f") || !text.contains("1e+300") {
+        return Err(format!("setup: the block text lacks the expected tokens: {}", text));
+    }
+    let mut without = vec![];
+    for (_, idx) in &blocks {
+        without.push(view(&on_items(&items, Some(*idx), None)?));
+    }
+    let with_all = view(&on_items(&items, None, None)?);
+    if without.iter().any(|w| *w == with_all) {
+        return Err("setup: leaving a block out does not change the state".into());
+    }
+    Ok(Flip { items, blocks, without })
+}
+
+/// one flipped bit in a stored block: a fresh replica is Err or shows the state WITHOUT that block — never with it
+fn flip_check(f: &Flip, b: usize, byte: usize, bit: u8) -> Result<(), String> {
+    let (label, idx) = &f.blocks[b];
+    let mut d = f.items[*idx].1.clone();
+    if byte >= d.len() {
+        return Err("setup: byte out of range".into());
+    }
+    let old = d[byte];
+    d[byte] ^= 1 << bit;
+    match on_items(&f.items, None, Some((*idx, &d))) {
+        Err(_) => Ok(()),
+        Ok(m) => {
+            let got = view(&m);
+            if got == f.without[b] {
+                Ok(())
+            } else {
+                Err(format!(
+                    "block {} with bit {} of byte {} flipped ({:?} -> {:?}, context {:?}) is accepted: the replica does not show the state without that block; anchors {} / read {}",
+                    label,
+                    bit,
+                    byte,
+                    old as char,
+                    d[byte] as char,
+                    String::from_utf8_lossy(&f.items[*idx].1[byte.saturating_sub(8)..(byte + 8).min(d.len())]),
+                    got["anchors"],
+                    got["read"]
+                ))
+            }
+        }
+    }
+}
+
+fn flip_positions(f: &Flip, b: usize, thorough: bool) -> Vec<(usize, u8)> {
+    let bytes = &f.items[f.blocks[b].1].1;
+    let text = String::from_utf8_lossy(bytes).to_string();
+    let mut token = vec![false; bytes.len()];
+    for t in ["2.5e-7", "\\u001f", "1e+300", "é"] {
+        let mut from = 0;
+        while let Some(p) = text[from..].find(t) {
+            for i in (from + p)..(from + p + t.len()).min(bytes.len()) {
+                token[i] = true;
+            }
+            from += p + t.len();
+        }
+    }
+    let all = thorough || bytes.len() <= 1500;
+    let mut out = vec![];
+    for byte in 0..bytes.len() {
+        for bit in 0..8u8 {
+            if all || token[byte] || (byte * 8 + bit as usize) % 7 == 0 {
+                out.push((byte, bit));
+            }
+        }
+    }
+    out
+}
+
+pub fn run(thorough: bool, _seed: u64) -> Report {
     let mut rep = Report::new(
         "junk_blocks",
-        "28 hand-built junk block contents (wrong JSON types in k / p / c / i, out-of-range indices, non-JSON) each stored under a name consistent with its SHA-256 (index 1 and 2), parsed directly and through open + refresh",
+        "bit flips: every single bit of the stored second and third block file of a 3-commit history whose second block carries commit information with a float exponent, a \\u001f escape, a non-ASCII string and 1e300 (all bits for blocks <= 1500 bytes or thorough; else token bytes + every 7th bit); junk: 28 hand-built junk block contents (wrong JSON types in k / p / c / i, out-of-range indices, non-JSON) each stored under a name consistent with its SHA-256 (index 1 and 2), parsed directly and through open + refresh",
         "fixed list; every case is non-trivial (the name/hash gate passes, so the parser is reached)",
     );
     for (n, t) in junk_texts() {
@@ -99,10 +235,36 @@ pub fn run(_thorough: bool, _seed: u64) -> Report {
             rep.fail(&format!("junk:{}", n), json!({"name": n, "text": t}), &w);
         }
     }
+    match super::guarded(flip_history) {
+        Ok(Ok(f)) => {
+            let mut shown = 0;
+            for b in 0..f.blocks.len() {
+                for (byte, bit) in flip_positions(&f, b, thorough) {
+                    let key = format!("bitflip:{}:{}.{}", f.blocks[b].0, byte, bit);
+                    rep.case(&key, true);
+                    let r = { let fr = &f; super::guarded(std::panic::AssertUnwindSafe(|| flip_check(fr, b, byte, bit))) };
+                    let w = match r { Ok(Ok(())) => continue, Ok(Err(w)) => w, Err(p) => format!("panic: {}", p) };
+                    if shown < 3 {
+                        shown += 1;
+                        rep.fail(&key, json!({"kind": "bitflip", "block": b, "byte": byte, "bit": bit}), &w);
+                    }
+                }
+            }
+        }
+        Ok(Err(e)) => { rep.case("bitflip:setup", true); rep.fail("bitflip:setup", json!({"kind": "bitflip-setup"}), &e); }
+        Err(p) => { rep.case("bitflip:setup", true); rep.fail("bitflip:setup", json!({"kind": "bitflip-setup"}), &format!("panic: {}", p)); }
+    }
     rep
 }
 
 pub fn replay(case: &Value) -> Value {
+    if case["input"]["kind"] == "bitflip" {
+        let i = &case["input"];
+        return match flip_history().and_then(|f| flip_check(&f, i["block"].as_u64().unwrap_or(0) as usize, i["byte"].as_u64().unwrap_or(0) as usize, i["bit"].as_u64().unwrap_or(0) as u8)) {
+            Ok(()) => json!({"reproduced": false}),
+            Err(w) => json!({"reproduced": true, "what": w}),
+        };
+    }
     let n = case["input"]["name"].as_str().unwrap_or("");
     let t = case["input"]["text"].as_str().unwrap_or("");
     match check(n, t) {
